@@ -225,6 +225,24 @@ class Walker:
 # ---------------------------------------------------------------------------------------------- trace partitioning
 
 
+_MIRROR = {ast.Lt: ast.Gt, ast.Gt: ast.Lt, ast.LtE: ast.GtE, ast.GtE: ast.LtE}
+
+
+def _canon_cmp(t):
+    """Canonical (key, polarity) of an ordering comparison: operands in lexicographic order, only '<' and '<=' as keys:
+       a < b -> ('a < b', True)   a <= b -> ('a <= b', True)   a > b -> ('a <= b', False)   a >= b -> ('a < b', False)."""
+    l, r, op = au.U(t.left), au.U(t.comparators[0]), type(t.ops[0])
+    if l > r:
+        l, r, op = r, l, _MIRROR[op]
+    if op is ast.Lt:
+        return "%s < %s" % (l, r), True
+    if op is ast.LtE:
+        return "%s <= %s" % (l, r), True
+    if op is ast.Gt:
+        return "%s <= %s" % (l, r), False
+    return "%s < %s" % (l, r), False
+
+
 def atom_of(test):
     """(key, polarity, names) for a test that is a single atom, else None."""
     nt = au.none_test(test)
@@ -234,7 +252,28 @@ def atom_of(test):
     t, pol = au.strip_not(test)
     if isinstance(t, ast.BoolOp):
         return None
+    if isinstance(t, ast.Compare) and len(t.ops) == 1 and type(t.ops[0]) in _MIRROR:
+        key, p2 = _canon_cmp(t)
+        return (key, pol == p2, frozenset(au.names_in(t)))
+    if isinstance(t, ast.Compare) and len(t.ops) == 1 and isinstance(t.ops[0], (ast.NotEq, ast.IsNot, ast.NotIn)):
+        pos = ast.Compare(left=t.left, ops=[{ast.NotEq: ast.Eq, ast.IsNot: ast.Is, ast.NotIn: ast.In}[type(t.ops[0])]()], comparators=t.comparators)
+        return (au.U(pos), not pol, frozenset(au.names_in(t)))
     return (au.U(t), pol, frozenset(au.names_in(t)))
+
+
+def _lookup(key, pc):
+    """Value of an atom under pc, using  (a < b) => (a <= b)."""
+    if key in pc:
+        return pc[key][0]
+    if " <= " in key:
+        k2 = key.replace(" <= ", " < ", 1)
+        if k2 in pc and pc[k2][0] is True:
+            return True
+    elif " < " in key:
+        k2 = key.replace(" < ", " <= ", 1)
+        if k2 in pc and pc[k2][0] is False:
+            return False
+    return None
 
 
 def eval3(test, pc: dict):
@@ -249,8 +288,10 @@ def eval3(test, pc: dict):
     else:
         a = atom_of(t)
         r = None
-        if a is not None and a[0] in pc:
-            r = pc[a[0]][0] if a[1] else (not pc[a[0]][0])
+        if a is not None:
+            v = _lookup(a[0], pc)
+            if v is not None:
+                r = v if a[1] else (not v)
     if r is None:
         return None
     return r if pol else (not r)
